@@ -325,8 +325,8 @@ Qed.
 
 Lemma upper_label enc : forallb is_label_char enc = true -> forallb is_label_char (upper enc) = true.
 Proof.
-  induction enc as [|c e IH]; cbn; [auto|]. intros H. apply andb_true_iff in H. destruct H as [H1 H2].
-  rewrite label_char_upper, IH; auto.
+  unfold upper. induction enc as [|c e IH]; cbn [map forallb]; [auto|]. intros H.
+  apply andb_true_iff in H. destruct H as [H1 H2]. rewrite label_char_upper, IH; auto.
 Qed.
 
 Lemma label_no_quote e : forallb is_label_char e = true -> forallb (fun c => negb (c =? 34)) e = true.
@@ -355,10 +355,10 @@ Proof.
   intros He. apply label_no_quote in He.
   pose proof (read_until_char 34 e (L_PI_CLOSE ++ rest) He) as Hq.
   change (L_DECL_TAIL ++ rest) with (34 :: L_PI_CLOSE ++ rest).
-  remember (e ++ 34 :: L_PI_CLOSE ++ rest) as X eqn:EX.
-  unfold parse_decl, L_DECL_HEAD. cbn -[read_until skip_ws]. 
-  cbn [read_until py_prefix skipn length N.eqb Pos.eqb andb]. rewrite Hq.
-  reflexivity.
+  remember (e ++ 34 :: L_PI_CLOSE ++ rest) as X eqn:EX. clear EX.
+  unfold parse_decl, L_DECL_HEAD. cbn.
+  match goal with |- context [read_until ?a X] => change (read_until a X) with (read_until [34] X) end.
+  rewrite Hq. reflexivity.
 Qed.
 
 Lemma parse_decl_of enc rest :
